@@ -768,6 +768,9 @@ pub fn worker(args: &[String]) -> i32 {
     let to: u64 = arg_after(args, "--to").and_then(|s| s.parse().ok()).unwrap_or(0);
     let mut sum = E2Summary::default();
     for i in from..to {
+        if sum.violations.len() >= 4 {
+            break;
+        }
         let seed = run_seed(crate::global_seed(), "e2-c05", i);
         let s = generate(seed);
         match execute(&s, &root, None) {
